@@ -35,7 +35,7 @@ COMPONENTS = ["laostar", "lrtdp", "astar", "bfs", "td", "rmax", "bpi", "ga", "se
 
 KINDS = ["KPrivate", "KParamDefaultGlobal", "KGlobalIfSeedNone", "KAuditedOrderFree",
          "KGlobal", "KGlobalIfSeedFalsy", "KUnseeded", "KHashOrder", "KHash", "KHashDerivedSeed",
-         "KPersistentAcrossCalls", "KShufflesCallerObject"]
+         "KPersistentAcrossCalls", "KShufflesCallerObject", "KHashOfInstanceCounter"]
 
 # file -> (default components, {scope-prefix: components})
 # A scope is "Class.method" / "function" (nested functions and lambdas belong to their enclosing scope).
@@ -52,6 +52,9 @@ FILES = {
     "msdm/algorithms/fscgradientascent.py": (["ga"], {"stochastic_fsc_policy_evaluation_exact": ["ga", "bpi"]}),
     "msdm/core/semimdp/semimdp.py": (["semimdp"], {}),
     "msdm/core/distributions/utils.py": (["semimdp"], {}),
+    # not one of the twelve anchored files, but obj_seed hashes Option objects: their __hash__ and what feeds it belong
+    # to the semi-MDP's seed derivation
+    "msdm/core/semimdp/option.py": (["semimdp"], {}),
     "msdm/core/distributions/distributions.py": (
         SAMPLING_USERS + ["implicit"],
         {"ImplicitDistribution": ["implicit"],
@@ -391,8 +394,43 @@ class FileScan:
                 return [d for d in defs.get(f.attr, []) if isinstance(self.parents.get(d), ast.ClassDef)]
         return []
 
+    # ---- __hash__ fed by class-level counters --------------------------------------------------------
+    def scan_hash_counters(self):
+        """class C: ... C.<n> / self.__class__.<n> / cls.<n> / type(self).<n>  += ...   (a class-level counter)
+        and __hash__ reads self.<a>, and the LAST assignment of self.<a> in __init__ takes a value that mentions the
+        counter, directly or through a local name assigned from it  =>  hash(obj) depends on how many objects exist"""
+        def class_attr(e, cls):
+            if isinstance(e, ast.Attribute):
+                b = src(e.value)
+                if b in ("self.__class__", "cls", "type(self)", cls.name):
+                    return e.attr
+            return None
+        for cls in [x for x in ast.walk(self.tree) if isinstance(x, ast.ClassDef)]:
+            counters = {class_attr(x.target, cls) for x in ast.walk(cls) if isinstance(x, ast.AugAssign)} - {None}
+            hashf = next((f for f in cls.body if isinstance(f, ast.FunctionDef) and f.name == "__hash__"), None)
+            init = next((f for f in cls.body if isinstance(f, ast.FunctionDef) and f.name == "__init__"), None)
+            if not counters or hashf is None or init is None:
+                continue
+            read = {x.attr for x in ast.walk(hashf) if isinstance(x, ast.Attribute) and src(x.value) == "self"}
+            mentions = lambda e: any(class_attr(x, cls) in counters for x in ast.walk(e))
+            tainted = set()
+            for _ in range(3):
+                for x in ast.walk(init):
+                    if isinstance(x, ast.Assign) and (mentions(x.value) or any(isinstance(y, ast.Name) and y.id in tainted for y in ast.walk(x.value))):
+                        tainted |= {t.id for t in x.targets if isinstance(t, ast.Name)}
+            for a in sorted(read):
+                assigns = [x for x in ast.walk(init) if isinstance(x, ast.Assign)
+                           and any(isinstance(t, ast.Attribute) and t.attr == a and src(t.value) == "self" for t in x.targets)]
+                if not assigns:
+                    continue
+                last = max(assigns, key=lambda x: x.lineno)
+                if mentions(last.value) or any(isinstance(y, ast.Name) and y.id in tainted for y in ast.walk(last.value)):
+                    self.sites.append({"scope": self.scope(hashf), "line": hashf.lineno, "kind": "KHashOfInstanceCounter",
+                                       "what": "%s.__hash__ reads self.%s, set at line %d from the class-level counter %s"
+                                               % (cls.name, a, last.lineno, "/".join(sorted(counters))), "_defs": [hashf]})
+
     SEVERITY = ["KPrivate", "KParamDefaultGlobal", "KGlobalIfSeedNone", "KAuditedOrderFree", "KHashOrder", "KHash",
-                "KHashDerivedSeed", "KUnseeded", "KPersistentAcrossCalls", "KShufflesCallerObject", "KGlobalIfSeedFalsy", "KGlobal"]
+                "KHashDerivedSeed", "KUnseeded", "KPersistentAcrossCalls", "KShufflesCallerObject", "KHashOfInstanceCounter", "KGlobalIfSeedFalsy", "KGlobal"]
 
     def helper_kinds(self, d, depth=2, seen=None):
         """kinds of the sites inside helper d and inside the module helpers it calls (depth levels down)"""
@@ -458,6 +496,7 @@ class FileScan:
             # the global generator object used as a VALUE: assigned / passed / returned
             self.emit(n, "KGlobal", "global generator `%s` used as a value in `%s`" % (src(n), src(self.stmt_of(n))[:80]))
         self.scan_set_iteration()
+        self.scan_hash_counters()
         self.scan_leftovers()
         return self.sites
 
